@@ -48,4 +48,233 @@ theorem drop_tail {α : Type} (l : List α) (k : Nat) : l.tail.drop k = l.drop (
   | nil => simp
   | cons x xs => simp
 
+theorem remsFrom_congr {exts : Array Ext} {mx rep rep' : List Nat} {nbF g0 : Nat} (F : List Ext → List Ext)
+    (h : ∀ g, g0 ≤ g → g < nbF → remQ exts mx rep' g = F (remQ exts mx rep g)) :
+    remsFrom exts mx rep' nbF g0 = (remsFrom exts mx rep nbF g0).map F := by
+  unfold remsFrom
+  rw [List.map_map]
+  apply List.map_congr_left
+  intro g hg
+  rw [List.mem_range'_1] at hg
+  exact h g hg.1 (by omega)
+
+theorem rdE_some {exts : Array Ext} {i : Nat} {e : Ext} (h : rdE exts i = .ok e) : exts[i]? = some e := by
+  simp only [rdE] at h; split at h
+  · rename_i v hv; simp only [Res.ok.injEq] at h; subst h; exact hv
+  · cases h
+
+section
+variable {exts : Array Ext} {nbF : Nat} {mx : List Nat}
+
+theorem detect_aux (hv : AllValid exts nbF) (hmxl : mx.length = nbF) (hmx : ∀ g, g < nbF → mx.getD g 0 ≤ exts.size)
+    (f : Nat) (hf : f + 1 < nbF) (s : Det) (e : Ext) (hrl : s.rep.length = nbF)
+    (hc : ∀ g, f < g → g < nbF → Clean exts mx (s.rep.getD g 0) g)
+    (hcr : canRepeat exts mx s.rep nbF e (f + 1) = .ok true) :
+    (∃ rep', advanceRep exts mx nbF (f + 1) s.rep = .ok rep') ∧
+    (∃ ll, (if h : 32 ≤ e.id then
+        (match rdN s.rep (nbF - 1) with
+         | Res.ok v => Res.ok (some v)
+         | Res.err er => Res.err er
+         | Res.oob => Res.oob
+         | Res.abort => Res.abort)
+      else Res.ok s.lastLong) = Res.ok ll) := by
+  rw [canRepeat_spec hv hmxl hmx s.rep hrl e (f + 1) (fun g h1 h2 => hc g (by omega) h2)] at hcr
+  simp only [Res.ok.injEq] at hcr
+  have hheads := headsMatch_remsFrom hcr
+  have hne : ∀ g, f + 1 ≤ g → g < nbF → s.rep.getD g 0 < mx.getD g 0 := by
+    intro g h1 h2
+    obtain ⟨x, hx, _⟩ := hheads g h1 h2
+    apply Decidable.byContradiction; intro hcn
+    unfold remQ at hx
+    rw [seg_empty exts g (by omega)] at hx; cases hx
+  obtain ⟨rep'', hA', _⟩ := advanceRep_spec hv hmxl hmx (f + 1) s.rep hrl
+    (fun g h1 h2 => ⟨hc g (by omega) h2, hne g h1 h2⟩)
+  refine ⟨⟨rep'', hA'⟩, ?_⟩
+  split
+  · rw [rdN_getD (by omega)]; exact ⟨_, rfl⟩
+  · exact ⟨_, rfl⟩
+
+theorem detectLoop_spec (hv : AllValid exts nbF) (hmxl : mx.length = nbF) (hmx : ∀ g, g < nbF → mx.getD g 0 ≤ exts.size)
+    (f : Nat) (hf : f + 1 < nbF) (i hi : Nat) (s : Det) (hhi : hi ≤ exts.size) :
+    s.rep.length = nbF → (∀ g, f < g → g < nbF → Clean exts mx (s.rep.getD g 0) g) →
+    ∃ det, detectLoop exts mx nbF f i hi s = .ok det ∧
+      DetSpec exts mx nbF f i hi s det (repCount (seg exts i hi f) (remsFrom exts mx s.rep nbF (f + 1)))
+        ((seg exts i hi f).take (repCount (seg exts i hi f) (remsFrom exts mx s.rep nbF (f + 1)))) := by
+  fun_induction detectLoop exts mx nbF f i hi s with
+  | case1 i s hlt e he hfe hcr =>
+    intro hrl hc
+    have hget := rdE_some he
+    have hfn : e.frame.toNat = f := by omega
+    rw [canRepeat_spec hv hmxl hmx s.rep hrl e (f + 1) (fun g h1 h2 => hc g (by omega) h2)] at hcr
+    simp only [Res.ok.injEq] at hcr
+    have hR : repCount (seg exts i hi f) (remsFrom exts mx s.rep nbF (f + 1)) = 0 := by
+      rw [seg_step exts i hi f e hlt hget]; simp [hfn, repCount, hcr]
+    rw [hR]
+    exact ⟨s, rfl, ⟨by omega, hrl, fun _ _ => rfl, fun g h1 h2 => ⟨hc g h1 h2, Nat.le_refl _, Nat.le_max_left _ _, by simp, by
+      simp [seg_empty exts g (Nat.le_refl _)]⟩, fun _ => ⟨rfl, rfl⟩, fun h => by omega, by simp [lastLongPos]⟩⟩
+  | case2 i s hlt e he hfe hcr ll rep' hA hL ih =>
+    intro hrl hc
+    have hget := rdE_some he
+    have hfn : e.frame.toNat = f := by omega
+    rw [canRepeat_spec hv hmxl hmx s.rep hrl e (f + 1) (fun g h1 h2 => hc g (by omega) h2)] at hcr
+    simp only [Res.ok.injEq] at hcr
+    have hheads := headsMatch_remsFrom hcr
+    have hne : ∀ g, f + 1 ≤ g → g < nbF → s.rep.getD g 0 < mx.getD g 0 := by
+      intro g h1 h2
+      obtain ⟨x, hx, _⟩ := hheads g h1 h2
+      apply Decidable.byContradiction; intro hcn
+      unfold remQ at hx
+      rw [seg_empty exts g (by omega)] at hx; cases hx
+    obtain ⟨rep'', hA', hrl', hlow, hup⟩ := advanceRep_spec hv hmxl hmx (f + 1) s.rep hrl
+      (fun g h1 h2 => ⟨hc g (by omega) h2, hne g h1 h2⟩)
+    rw [hA] at hA'; cases hA'
+    have hlast : nbF - 1 < s.rep.length := by omega
+    have hLv : ll = if 32 ≤ e.id then some (s.rep.getD (nbF - 1) 0) else s.lastLong := by
+      split at hL
+      · rw [rdN_getD hlast] at hL; simp only [Res.ok.injEq] at hL
+        rename_i h32; simp only [h32, if_true]; exact hL.symm
+      · simp only [Res.ok.injEq] at hL
+        rename_i h32; simp only [h32, if_false]; exact hL.symm
+    have hset_ne : ∀ g, g ≠ f → (rep'.set f i).getD g 0 = rep'.getD g 0 := fun g hg => getD_set_ne' _ _ _ _ (fun h => hg h.symm)
+    have hset_eq : (rep'.set f i).getD f 0 = i := getD_set_eq' _ _ _ (by omega)
+    obtain ⟨det, hdet, hspec⟩ := ih (by simp [hrl']) (fun g h1 h2 => by rw [hset_ne g (by omega)]; exact (hup g (by omega) h2).1)
+    -- the queues after one advance
+    have hq' : ∀ g, f + 1 ≤ g → g < nbF → remQ exts mx (rep'.set f i) g = (remQ exts mx s.rep g).tail := by
+      intro g h1 h2
+      unfold remQ; rw [hset_ne g (by omega)]; exact (hup g h1 h2).2.2.2.1
+    have hrems : remsFrom exts mx (rep'.set f i) nbF (f + 1) = (remsFrom exts mx s.rep nbF (f + 1)).map List.tail :=
+      remsFrom_congr List.tail hq'
+    have hseg : seg exts i hi f = e :: seg exts (i + 1) hi f := by
+      rw [seg_step exts i hi f e hlt hget]; simp [hfn]
+    have hR : repCount (seg exts i hi f) (remsFrom exts mx s.rep nbF (f + 1)) =
+        repCount (seg exts (i + 1) hi f) (remsFrom exts mx (rep'.set f i) nbF (f + 1)) + 1 := by
+      rw [hseg, hrems]; simp [repCount, hcr]
+    simp only at hspec
+    rw [hR, hseg, List.take_succ_cons]
+    generalize hR' : repCount (seg exts (i + 1) hi f) (remsFrom exts mx (rep'.set f i) nbF (f + 1)) = R' at hspec ⊢
+    refine ⟨det, hdet, ⟨?_, hspec.len, ?_, ?_, fun h => by omega, ?_, ?_⟩⟩
+    · have := hspec.cnt; simp only at this; omega
+    · intro g hg
+      rw [hspec.lower g hg]; simp only; rw [hset_ne g (by omega), hlow g (by omega)]
+    · intro g h1 h2
+      obtain ⟨u1, u2, u3, u4, u5⟩ := hspec.upper g h1 h2
+      obtain ⟨a1, a2, a3, a4, a5⟩ := hup g (by omega) h2
+      simp only at u2 u3 u4 u5
+      rw [hset_ne g (by omega)] at u2 u3 u5
+      refine ⟨u1, by omega, by omega, ?_, ?_⟩
+      · rw [u4, hq' g (by omega) h2, drop_tail]
+      · rw [seg_split exts g (by omega : s.rep.getD g 0 ≤ rep'.getD g 0) u2, a5, u5]
+        have : remQ exts mx (rep'.set f i) g = (remQ exts mx s.rep g).tail := hq' g (by omega) h2
+        rw [this, take_one_tail]
+    · intro _
+      by_cases hR0 : R' = 0
+      · have hz := hspec.zero hR0
+        simp only at hz
+        rw [hz.1, hset_eq]
+        refine ⟨Nat.le_refl _, hlt, ⟨e, hget, hfn⟩, ?_⟩
+        rw [seg_empty exts f (Nat.le_refl _), hR0]; rfl
+      · obtain ⟨p1, p2, p3, p4⟩ := hspec.pos (by omega)
+        refine ⟨by omega, p2, p3, ?_⟩
+        rw [seg_split exts f (show i ≤ i + 1 by omega) p1]
+        have : seg exts i (i + 1) f = [e] := by
+          rw [seg_step exts i (i + 1) f e (by omega) hget, seg_empty exts f (Nat.le_refl _)]; simp [hfn]
+        rw [this]; simp only [List.singleton_append, List.length_cons]; omega
+    · have hll := hspec.ll
+      simp only at hll
+      simp only [lastLongPos]
+      have hlf : nbF - 1 ≠ f := by omega
+      obtain ⟨a1, a2, a3, a4, a5⟩ := hup (nbF - 1) (by omega) (by omega)
+      cases hlp : lastLongPos (List.take R' (seg exts (i + 1) hi f)) with
+      | some k =>
+        rw [hlp] at hll
+        obtain ⟨jL, j1, j2, j3, j4, j5⟩ := hll
+        rw [hset_ne _ hlf] at j3 j5
+        refine ⟨jL, j1, j2, by omega, j4, ?_⟩
+        rw [seg_split exts (nbF - 1) (by omega : s.rep.getD (nbF - 1) 0 ≤ rep'.getD (nbF - 1) 0) j3, a5, List.length_append, j5]
+        obtain ⟨x, hx, _⟩ := hheads (nbF - 1) (by omega) (by omega)
+        cases hq : remQ exts mx s.rep (nbF - 1) with
+        | nil => rw [hq] at hx; cases hx
+        | cons y ys => simp; omega
+      | none =>
+        rw [hlp] at hll
+        simp only at hll ⊢
+        rw [hll, hLv]
+        by_cases h32 : 32 ≤ e.id
+        · simp only [h32, if_true]
+          obtain ⟨e', he1, he2, _⟩ := clean_head (hc (nbF - 1) (by omega) (by omega)) (hne (nbF - 1) (by omega) (by omega))
+            (hmx (nbF - 1) (by omega))
+          exact ⟨_, rfl, ⟨e', he1, he2⟩, Nat.le_refl _, hne (nbF - 1) (by omega) (by omega), by
+            rw [seg_empty exts (nbF - 1) (Nat.le_refl _)]; rfl⟩
+        · simp only [h32, if_false]
+  | case3 i s hlt e he hfe hcr h1 =>
+    intro hrl hc; exfalso
+    split at h1
+    · rw [rdN_getD (by omega)] at h1; cases h1
+    · cases h1
+  | case4 i s hlt e he hfe hcr h1 h2 =>
+    intro hrl hc; exfalso
+    obtain ⟨⟨r, hr⟩, _⟩ := detect_aux hv hmxl hmx f hf s e hrl hc hcr
+    rw [hr] at h1; cases h1
+  | case5 i s hlt e he hfe hcr er h1 h2 =>
+    intro hrl hc; exfalso
+    split at h1
+    · rw [rdN_getD (by omega)] at h1; cases h1
+    · cases h1
+  | case6 i s hlt e he hfe hcr er h1 h2 h3 =>
+    intro hrl hc; exfalso
+    obtain ⟨⟨r, hr⟩, _⟩ := detect_aux hv hmxl hmx f hf s e hrl hc hcr
+    rw [hr] at h1; cases h1
+  | case7 i s hlt e he hfe hcr h1 h2 h3 h4 h5 =>
+    intro hrl hc; exfalso
+    obtain ⟨⟨r, hr⟩, _⟩ := detect_aux hv hmxl hmx f hf s e hrl hc hcr
+    refine h5 (if 32 ≤ e.id then some (s.rep.getD (nbF - 1) 0) else s.lastLong) r ?_ hr
+    split
+    · rw [rdN_getD (by omega)]
+    · rfl
+  | case8 i s hlt e he hfe er hcr =>
+    intro hrl hc; exfalso
+    rw [canRepeat_spec hv hmxl hmx s.rep hrl e (f + 1) (fun g h1 h2 => hc g (by omega) h2)] at hcr; cases hcr
+  | case9 i s hlt e he hfe hcr =>
+    intro hrl hc; exfalso
+    rw [canRepeat_spec hv hmxl hmx s.rep hrl e (f + 1) (fun g h1 h2 => hc g (by omega) h2)] at hcr; cases hcr
+  | case10 i s hlt e he hfe hcr =>
+    intro hrl hc; exfalso
+    rw [canRepeat_spec hv hmxl hmx s.rep hrl e (f + 1) (fun g h1 h2 => hc g (by omega) h2)] at hcr; cases hcr
+  | case11 i s hlt e he hfe ih =>
+    intro hrl hc
+    have hget := rdE_some he
+    have hfn : ¬ e.frame.toNat = f := by have := (hv _ _ hget).fr_lo; omega
+    obtain ⟨det, hdet, hspec⟩ := ih hrl hc
+    have hseg : seg exts i hi f = seg exts (i + 1) hi f := by
+      rw [seg_step exts i hi f e hlt hget]; simp [hfn]
+    rw [hseg]
+    refine ⟨det, hdet, ⟨hspec.cnt, hspec.len, hspec.lower, hspec.upper, hspec.zero, ?_, hspec.ll⟩⟩
+    intro hR
+    obtain ⟨p1, p2, p3, p4⟩ := hspec.pos hR
+    refine ⟨by omega, p2, p3, ?_⟩
+    rw [seg_split exts f (show i ≤ i + 1 by omega) p1]
+    have : seg exts i (i + 1) f = [] := by
+      rw [seg_step exts i (i + 1) f e (by omega) hget, seg_empty exts f (Nat.le_refl _)]; simp [hfn]
+    rw [this]; exact p4
+  | case12 i s hlt er he =>
+    intro _ _; exfalso
+    simp only [rdE] at he
+    rw [Array.getElem?_eq_getElem (by omega)] at he; cases he
+  | case13 i s hlt he =>
+    intro _ _; exfalso
+    simp only [rdE] at he
+    rw [Array.getElem?_eq_getElem (by omega)] at he; cases he
+  | case14 i s hlt he =>
+    intro _ _; exfalso
+    simp only [rdE] at he
+    rw [Array.getElem?_eq_getElem (by omega)] at he; cases he
+  | case15 i s hge =>
+    intro hrl hc
+    have hR : repCount (seg exts i hi f) (remsFrom exts mx s.rep nbF (f + 1)) = 0 := by
+      rw [seg_empty exts f (by omega)]; rfl
+    rw [hR]
+    exact ⟨s, rfl, ⟨by omega, hrl, fun _ _ => rfl, fun g h1 h2 => ⟨hc g h1 h2, Nat.le_refl _, Nat.le_max_left _ _, by simp, by
+      simp [seg_empty exts g (Nat.le_refl _)]⟩, fun _ => ⟨rfl, rfl⟩, fun h => by omega, by simp [lastLongPos]⟩⟩
+
+end
 end Opus.ExtProofs
